@@ -683,3 +683,32 @@ def validate_traces(ctx, module, recs, shards=8, guard_event="entry"):
             drift.append("binding guard: %d of %d corrupted traces were accepted by %s" % (accepted, len(bad), module))
     return {"kind": "trace-validation", "module": module, "states": states, "validated": ok, "rejected": len(recs) - ok,
             "events": sum(len(x["events"]) for x in recs), "drift": drift, "binding_guard": guard}
+
+
+def run_apalache(module, obligations, timeout=600):
+    """obligations: list of (name, init predicate, invariant, length).  A tool that cannot be run or runs out of time is
+    recorded (note), not treated as a refutation."""
+    t0 = time.time()
+    out_dir = tempfile.mkdtemp(prefix="apalache.", dir=BUILD)
+    done = 0
+    refuted = None
+    note = ""
+    for name, init, inv, length in obligations:
+        cmd = ["apalache-mc", "check", "--init=%s" % init, "--inv=%s" % inv, "--length=%d" % length,
+               "--out-dir=%s" % out_dir, os.path.join(SPEC, module + ".tla")]
+        try:
+            p = subprocess.run(cmd, cwd=SPEC, stdout=subprocess.PIPE, stderr=subprocess.STDOUT, timeout=timeout)
+            text = p.stdout.decode("utf-8", "replace")
+        except (OSError, subprocess.TimeoutExpired) as ex:
+            note = "%s: not decided (%s)" % (name, type(ex).__name__)
+            continue
+        if "The outcome is: NoError" in text:
+            done += 1
+        elif "The outcome is: Error" in text:
+            refuted = name
+            break
+        else:
+            note = "%s: not decided" % name
+    rmtree(out_dir)
+    return {"module": module, "tool": "apalache", "obligations": len(obligations), "discharged": done, "refuted": refuted,
+            "note": note, "wall_s": round(time.time() - t0, 1)}
